@@ -1,5 +1,5 @@
 """C03 — encoding conforms to the Standard (structural and class-level clauses)."""
-import r_state, r_encclass, r_lookahead, r_surr, r_singlebyte, r_utf8store
+import r_state, r_encclass, r_lookahead, r_surr, r_singlebyte, r_utf8store, r_utf8asm
 
 MANIFEST = {
     'category': 'other',
@@ -34,4 +34,5 @@ def run(rep, facts, tier):
         rep.floor('R-SURR', 'surrogate tests on the encoder side', n, 10, c)
         r_singlebyte.run(rep, f, c)
         r_utf8store.run(rep, f, c)
+        r_utf8asm.run(rep, f, c, scope='handles::', floor=15)
     return ('other', MANIFEST['text'], [])
